@@ -2,7 +2,7 @@
 """C05 — inbound SMTP DATA is decoded transparently and framed only by CRLF.CRLF."""
 import os, sys
 sys.path.insert(0, os.path.join(os.path.dirname(os.path.abspath(__file__)), "..", "tools"))
-from nqlib import run_standard
+from nqlib import run_standard, VERIF
 
 RULE = ("every byte string over {CR,LF,'.','x'} up to length %s (exhaustive; read chunkings full/1/2), each also followed by "
         "CRLF.CRLF and a next command; every header of up to 4 lines from an 11-line Received/Delivered-To near-miss set; seeded random "
@@ -15,11 +15,21 @@ RULE = ("every byte string over {CR,LF,'.','x'} up to length %s (exhaustive; rea
         "verdict, stored bytes, consumed count, final ssin.p/ssin.n and the number of read() calls; the chunk-independence oracle requires every "
         "split of a stream to give the same verdict/stored bytes/consumed count; non-trivial = distinct input containing CR or LF")
 
+def builder(s):
+    """qmail-smtpd as a program object of its own (its writable data in sections the harness restores before every case:
+    every case starts from the program's own static initialisers - ssin / saferead / ssinbuf and its size, every static);
+    _exit / read interposed at link level; qmail.o, timeoutread.o, timeoutwrite.o replaced by the harness"""
+    obj, extra = s.prog_object("qs", "qmail-smtpd.c", "qmail-smtpd", keep_globals=["blast", "ssin", "substdio_get"],
+                               objs_exclude=["qmail.o", "timeoutread.o", "timeoutwrite.o"])
+    return s.cc(os.path.join(VERIF, "harness/c05_blast.c"), os.path.join(s.dir, "h_c05"),
+                extra="%s %s -Wl,--wrap=read -Wl,--wrap=_exit" % (obj, extra))
+
+
 run_standard("C05", "Nq.Props.C05", "drv_c05", "harness/c05_blast.c", "qmail-smtpd",
              ["qmail.o", "timeoutread.o", "timeoutwrite.o"],
              "9 4000", "12 60000", {"quick": RULE % (9, 5), "thorough": RULE % (12, 8)},
              "dblast/hopsOf (Nq/SmtpIn.lean) and sblast over Nq.Substdio (Nq/SmtpIO.lean) vs qmail-smtpd.c blast() over substdi.c", alphabet=b"\r\n.x",
-             stdin_prefixes=("0", "1", "2", "1023", "1023,1"),
+             builder=builder, stdin_prefixes=("0", "1", "2", "1023", "1023,1"),
              assumptions=["the value-level substdio model (Nq/Substdio.lean: the buffer is the list of unread bytes, not the array x) is tied to "
                           "substdi.c by running the real substdio under the read plans and comparing ssin.p/ssin.n/read() counts (and by C20's harness); "
                           "read() returns 0 only at the end of the stream",
